@@ -405,6 +405,14 @@ func short(s string, n int) string {
 	return s
 }
 
+// preFor: what the pre-existing output holds (variant 1 of a pre-existing-output case: a zero-length file).
+func preFor(pre bool, kind string, variant int, ps int) []byte {
+	if pre && kind == "intact" && variant == 1 {
+		return []byte{}
+	}
+	return preContent(ps)
+}
+
 func preContent(ps int) []byte {
 	return bytes.Repeat([]byte("PRE-EXISTING OUTPUT -- must stay untouched\n"), 2*ps/43+1)[:2*ps]
 }
@@ -941,7 +949,7 @@ func postObserve(o *obs, dir string, rm *repMeta, d *core.Dict) {
 	}
 	if o.Pre {
 		b, err := os.ReadFile(out)
-		o.PreSame = err == nil && bytes.Equal(b, preContent(rm.PageSize))
+		o.PreSame = err == nil && bytes.Equal(b, preFor(o.Pre, o.Kind, o.Var, rm.PageSize))
 	}
 }
 
@@ -987,7 +995,7 @@ func prepare(c *tcase, rm *repMeta, dir string) (repDir string, err error) {
 	}
 	if err == nil && c.Pre {
 		if err = os.MkdirAll(filepath.Join(dir, "out"), 0o755); err == nil {
-			err = os.WriteFile(filepath.Join(dir, "out", "db"), preContent(rm.PageSize), 0o644)
+			err = os.WriteFile(filepath.Join(dir, "out", "db"), preFor(c.Pre, c.Kind, c.Var, rm.PageSize), 0o644)
 		}
 	}
 	return
